@@ -97,11 +97,17 @@ def run(rep, tier, rng):
     rep.sample({"type": files[0]["code"], "constructor_calls": files[0]["specs"][:2]})
     path_route(rep, files[: (40 if tier == "thorough" else 12)])
     rep.cov["oracle"] = {"files": len(files), "failing": nfail}
-    rep.assumptions += ["files on disk (path route) go through BufWriter/BufReader/File: covered by the correspondence "
-                        "run of the path route below, not by the theorem",
+    rep.assumptions += ["files opened by path: sibling names (`Path::with_extension`), creation / truncation, absence of the index "
+                        "are modelled (Model/Paths.v, C01_roundtrip_by_path) and tied by the kind-16 correspondence; "
+                        "BufWriter/BufReader/File themselves are covered by the comparison with the in-memory route only",
                         "f64 arithmetic of the orientation test is Flocq's binary64 (round to nearest even)"]
 
 
 def path_route(rep, files):
-    """Files on disk opened by path (see pipeline.path_situations)."""
+    """Files on disk opened by path (see pipeline.path_situations), then the path-based API against the
+    directory model (Model/Paths.v: sibling names, stale files, removed files; lib/pathmodel.py)."""
     P.path_situations(rep, files, "c01")
+    import pathmodel
+    import random
+    pathmodel.stage(rep, os.path.join(sfv.TARGET, "debug", "runner"), random.Random(rep.seed * 7919 + 16), "c01p", 0,
+                    600 if rep.tier == "thorough" else 160)
